@@ -138,7 +138,8 @@ class ZukoFlow(BaseTorchFlow):
             FlowClass = flow_class
 
         # Ints are some times passed as strings, so we convert them
-        if hidden_features := kwargs.pop("hidden_features", None):
+        hidden_features = kwargs.pop("hidden_features", None)
+        if hidden_features is not None:
             kwargs["hidden_features"] = list(map(int, hidden_features))
 
         self.flow = FlowClass(self.dims, 0, **kwargs)
